@@ -44,7 +44,7 @@ def run_kani_group(pid, spec, tier, scratch):
                                             mem_gb=spec.get("mem_gb", 24), logfile=logfile)
     obls = []
     if not built:
-        tail = "\n".join(raw.strip().splitlines()[-40:])
+        tail = "\n".join(l[:400] for l in raw.strip().splitlines()[-25:])
         log(tail)
         log("INCONCLUSIVE: Kani build/run produced no result file (see %s)" % logfile)
         return [{"id": "kani-build", "engine": "kani", "status": "inconclusive",
@@ -78,10 +78,11 @@ def run_kani_group(pid, spec, tier, scratch):
                          % (r["status"], json.dumps(r.get("error"))[:300]))
             elif all("unwinding assertion" in d for d in descs):
                 o.update(status="inconclusive", detail="unwinding assertion failed: bound too small")
-            elif any(c.get("status") in ("Undetermined", "Unknown") for c in failed) and not any(c.get("status") == "Failure" for c in failed):
-                o.update(status="inconclusive", detail="undetermined checks: " + "; ".join(descs[:3]))
+            elif not any(c.get("status") == "Failure" for c in failed):
+                o.update(status="inconclusive", detail="checks left undecided by the solver (status %s; timeout/OOM?): %s"
+                         % (",".join(sorted(set(str(c.get("status")) for c in failed))), "; ".join(descs[:3])))
             else:
-                real = [c for c in failed if "unwinding assertion" not in (c.get("description") or "")]
+                real = [c for c in failed if "unwinding assertion" not in (c.get("description") or "") and c.get("status") == "Failure"]
                 o.update(status="candidate", failed=[{"d": c.get("description"), "loc": c.get("location"), "s": c.get("status")} for c in real[:8]])
         obls.append(o)
     # counterexamples: concretise and replay natively before reporting
